@@ -736,6 +736,11 @@ def judge(rec):
         out.append((f"cascade:unexpected-warning:{v}", "unexpected warnings: " + "; ".join(other)[:200]))
     if rec["mode"] == "vendor":
         exp = rec["expected"]
+        # a generated file may, by coincidence of its random scale factors, also satisfy an EARLIER attempt's norm test
+        # within the threshold (or sit in its grey zone): the format cannot tell the two encodings apart there and the
+        # property does not say which is meant — such cases are outside the vendor stream's domain
+        if exp in ORDER and any(own.get(att) is not None and own[att] < 3 * thr for att in ORDER[: ORDER.index(exp)]):
+            return out
         if rec["err"] is not None:
             out.append((f"cascade:rejected:{v}:{ts}", f"{v} file ({ts}) raised {rec['err']}"))
             return out
